@@ -308,6 +308,77 @@ macro_rules! with_p {
 }
 
 // ---------------------------------------------------------------------------------------------
+// API surface: fallible pub fns reached through every receiver form
+// ---------------------------------------------------------------------------------------------
+
+/// `TensorAccess::from(<RecordTensor: owned | & | &mut>, order).try_get_as_record(idx)`
+fn record_get<const D: usize>(shape: &[(&'static str, usize)], order: &[&'static str], idx: &[usize], via: &str) -> Option<u64> {
+    let list: WengertList<f64> = WengertList::new();
+    let n: usize = shape.iter().map(|d| d.1).product();
+    let values: Vec<f64> = (0..n).map(|k| k as f64).collect();
+    let mut rt = RecordTensor::variables(&list, Tensor::from(shape_array::<D>(shape), values));
+    let order: [Dimension; D] = names_array::<D>(order);
+    let idx: [usize; D] = to_array::<usize, D>(idx);
+    let r: Option<Record<f64>> = match via {
+        "ref" => TensorAccess::from(&rt, order).try_get_as_record(idx),
+        "mut" => TensorAccess::from(&mut rt, order).try_get_as_record(idx),
+        "index_by" => rt.index_by(order).try_get_as_record(idx),
+        // `TensorMut for RecordTensor` (get_reference_mut), read through the access
+        "tensor_mut" => {
+            return TensorAccess::from(&mut rt, order).try_get_reference_mut(idx).map(|x| x.0 as u64);
+        }
+        "tensor_ref" => {
+            return TensorAccess::from(&rt, order).try_get_reference(idx).map(|x| x.0 as u64);
+        }
+        _ => TensorAccess::from(rt, order).try_get_as_record(idx),
+    };
+    r.map(|r| {
+        assert!(r.history().map(|h| std::ptr::eq(h, &list)).unwrap_or(false), "record history");
+        r.number as u64
+    })
+}
+
+/// the lenient named methods of `Tensor` / `TensorView` on each receiver form
+fn named_method<const D: usize, const P: usize>(
+    mask: bool,
+    shape: &[(&'static str, usize)],
+    named: &[(&'static str, (usize, usize))],
+    via: &str,
+) -> String {
+    let mut t: Tensor<u64, D> = leaf_tensor::<D>(shape, 0);
+    let args = || named_array!(named, P, conv_ir);
+    macro_rules! finish {
+        ($r:expr) => {
+            match $r {
+                Ok(w) => {
+                    let cells: Vec<String> = w.iter().map(|x| x.to_string()).collect();
+                    format!(
+                        "ok shape={} cells={}",
+                        show_shape(&w.shape()),
+                        if cells.is_empty() { "-".to_string() } else { cells.join(",") }
+                    )
+                }
+                Err(e) => show_irv_error(&e),
+            }
+        };
+    }
+    match (mask, via) {
+        (false, "tensor_mut") => finish!(t.range_mut(args())),
+        (false, "tensor_owned") => finish!(t.range_owned(args())),
+        (false, "view") => finish!(TensorView::from(&t).range(args())),
+        (false, "view_mut") => finish!(TensorView::from(&mut t).range_mut(args())),
+        (false, "view_owned") => finish!(TensorView::from(t).range_owned(args())),
+        (false, _) => finish!(t.range(args())),
+        (true, "tensor_mut") => finish!(t.mask_mut(args())),
+        (true, "tensor_owned") => finish!(t.mask_owned(args())),
+        (true, "view") => finish!(TensorView::from(&t).mask(args())),
+        (true, "view_mut") => finish!(TensorView::from(&mut t).mask_mut(args())),
+        (true, "view_owned") => finish!(TensorView::from(t).mask_owned(args())),
+        (true, _) => finish!(t.mask(args())),
+    }
+}
+
+// ---------------------------------------------------------------------------------------------
 // the runner
 // ---------------------------------------------------------------------------------------------
 
@@ -424,6 +495,108 @@ impl Runner {
                     let arr: std::ops::Range<usize> = r.clone().into();
                     (arr.start, arr.end - arr.start)
                 }), |(s0, l)| format!("ok {}:{}", s0, l))
+            }
+            "record_get" => {
+                let shape = parse_shape(toks[1]);
+                let order = parse_names(toks[2]);
+                let idx = parse_usizes(toks[3]);
+                answer(catch(move || with_d!(shape.len(), D => record_get::<D>(&shape, &order, &idx, via))), show_opt)
+            }
+            "record_mget" => {
+                let (r, c): (usize, usize) = (toks[1].parse().unwrap(), toks[2].parse().unwrap());
+                let (i, j): (usize, usize) = (toks[3].parse().unwrap(), toks[4].parse().unwrap());
+                answer(
+                    catch(move || {
+                        let list: WengertList<f64> = WengertList::new();
+                        let values: Vec<f64> = (0..r * c).map(|k| k as f64).collect();
+                        let mut rm = RecordMatrix::variables(&list, Matrix::from_flat_row_major((r, c), values));
+                        match via {
+                            "matrix_ref" => MatrixRef::try_get_reference(&rm, i, j).map(|x| x.0 as u64),
+                            "matrix_mut" => MatrixMut::try_get_reference_mut(&mut rm, i, j).map(|x| x.0 as u64),
+                            _ => rm.try_get_as_record(i, j).map(|x| x.number as u64),
+                        }
+                    }),
+                    show_opt,
+                )
+            }
+            "dim_lookup" => {
+                let shape = parse_shape(toks[2]);
+                let name = intern(toks[3]);
+                let f = toks[1].to_string();
+                answer(
+                    catch(move || {
+                        with_d!(shape.len(), D => {
+                            let sh = shape_array::<D>(&shape);
+                            let r: Option<usize> = match (f.as_str(), via) {
+                                ("length_of", "tensor") => leaf_tensor::<D>(&shape, 0).length_of(name),
+                                ("length_of", "view") => TensorView::from(leaf_tensor::<D>(&shape, 0)).length_of(name),
+                                ("length_of", _) => easy_ml::tensors::dimensions::length_of(&sh, name),
+                                ("last_index_of", "tensor") => leaf_tensor::<D>(&shape, 0).last_index_of(name),
+                                ("last_index_of", "view") => TensorView::from(leaf_tensor::<D>(&shape, 0)).last_index_of(name),
+                                ("last_index_of", _) => easy_ml::tensors::dimensions::last_index_of(&sh, name),
+                                (_, _) => easy_ml::tensors::dimensions::position_of(&sh, name),
+                            };
+                            r.map(|x| x as u64)
+                        })
+                    }),
+                    show_opt,
+                )
+            }
+            "named" => {
+                let mask = toks[1] == "mask";
+                let shape = parse_shape(toks[2]);
+                let named = parse_named_ranges(toks[3]);
+                answer(
+                    catch(move || {
+                        with_d!(shape.len(), D => {
+                            with_p!(named.len(), P => named_method::<D, P>(mask, &shape, &named, via))
+                        })
+                    }),
+                    |s| s,
+                )
+            }
+            "from_usize" => {
+                use easy_ml::numeric::FromUsize;
+                use std::num::{Saturating, Wrapping};
+                let n: usize = toks[2].parse().unwrap();
+                let ty = toks[1].to_string();
+                answer(
+                    catch(move || -> Option<String> {
+                        macro_rules! int {
+                            ($T:ty) => {
+                                <$T as FromUsize>::from_usize(n).map(|x| x.to_string())
+                            };
+                        }
+                        match ty.as_str() {
+                            "u8" => int!(u8),
+                            "i8" => int!(i8),
+                            "u16" => int!(u16),
+                            "i16" => int!(i16),
+                            "u32" => int!(u32),
+                            "i32" => int!(i32),
+                            "u64" => int!(u64),
+                            "i64" => int!(i64),
+                            "u128" => int!(u128),
+                            "i128" => int!(i128),
+                            "usize" => int!(usize),
+                            "isize" => int!(isize),
+                            "wrapping_u8" => <Wrapping<u8> as FromUsize>::from_usize(n).map(|x| x.0.to_string()),
+                            "saturating_i16" => <Saturating<i16> as FromUsize>::from_usize(n).map(|x| x.0.to_string()),
+                            "f32" => <f32 as FromUsize>::from_usize(n).map(|x| (x == n as f32).to_string()),
+                            "f64" => <f64 as FromUsize>::from_usize(n).map(|x| (x == n as f64).to_string()),
+                            "record_f64" => <Record<f64> as FromUsize>::from_usize(n)
+                                .map(|x| (x.number == n as f64 && x.history().is_none()).to_string()),
+                            "record_i8" => <Record<i8> as FromUsize>::from_usize(n).map(|x| x.number.to_string()),
+                            "trace_i8" => <easy_ml::differentiation::Trace<i8> as FromUsize>::from_usize(n)
+                                .map(|x| x.number.to_string()),
+                            _ => Some("bad-op".to_string()),
+                        }
+                    }),
+                    |o| match o {
+                        Some(x) => format!("some({})", x),
+                        None => "none".into(),
+                    },
+                )
             }
             "is_valid" => {
                 let shape = parse_shape(toks[1]);
@@ -543,6 +716,23 @@ impl Runner {
                     "access" => TensorAccess::from_source_order(&*v).try_get_reference(i).copied(),
                     "access_mut" => TensorAccess::from_source_order(&mut *v).try_get_reference_mut(i).map(|x| *x),
                     "view" => TensorView::from(&*v).index().try_get_reference(i).copied(),
+                    // the forwarding impls of src/tensors/views/traits.rs
+                    "ref_ref" => TensorRef::get_reference(&&*v, i).copied(),
+                    "mut_ref" => TensorRef::get_reference(&&mut *v, i).copied(),
+                    "mut_mut" => TensorMut::get_reference_mut(&mut &mut *v, i).map(|x| *x),
+                    "boxed" => TensorRef::get_reference(&Box::new(&*v), i).copied(),
+                    "boxed_mut" => TensorMut::get_reference_mut(&mut Box::new(&mut *v), i).map(|x| *x),
+                    "box_dyn_ref" => {
+                        // the impl is for `'static` trait objects: the box lives for this call only
+                        let r: &'static Dyn<D> = unsafe { &*(&*v as *const Dyn<D>) };
+                        let b: Box<dyn TensorRef<u64, D>> = Box::new(r);
+                        b.get_reference(i).copied()
+                    }
+                    "box_dyn_mut" => {
+                        let r: &'static mut Dyn<D> = unsafe { &mut *(&mut *v as *mut Dyn<D>) };
+                        let mut b: Box<dyn TensorMut<u64, D>> = Box::new(r);
+                        b.get_reference_mut(i).map(|x| *x)
+                    }
                     _ => v.get_reference(i).copied(),
                 });
                 answer(r, show_opt)
@@ -559,6 +749,22 @@ impl Runner {
                     "mut" => m.try_get_reference_mut(r, c).map(|x| *x),
                     "view" => MatrixView::from(&*m).try_get_reference(r, c).copied(),
                     "view_mut" => MatrixView::from(&mut *m).try_get_reference_mut(r, c).map(|x| *x),
+                    // the forwarding impls of src/matrices/views/traits.rs
+                    "ref_ref" => MatrixRef::try_get_reference(&&*m, r, c).copied(),
+                    "mut_ref" => MatrixRef::try_get_reference(&&mut *m, r, c).copied(),
+                    "mut_mut" => MatrixMut::try_get_reference_mut(&mut &mut *m, r, c).map(|x| *x),
+                    "boxed" => MatrixRef::try_get_reference(&Box::new(&*m), r, c).copied(),
+                    "boxed_mut" => MatrixMut::try_get_reference_mut(&mut Box::new(&mut *m), r, c).map(|x| *x),
+                    "box_dyn_ref" => {
+                        let s: &'static MDyn = unsafe { &*(&*m as *const MDyn) };
+                        let b: Box<dyn MatrixRef<u64>> = Box::new(s);
+                        b.try_get_reference(r, c).copied()
+                    }
+                    "box_dyn_mut" => {
+                        let s: &'static mut MDyn = unsafe { &mut *(&mut *m as *mut MDyn) };
+                        let mut b: Box<dyn MatrixMut<u64>> = Box::new(s);
+                        b.try_get_reference_mut(r, c).map(|x| *x)
+                    }
                     _ => m.try_get_reference(r, c).copied(),
                 });
                 answer(res, show_opt)
@@ -861,13 +1067,18 @@ fn linalg(f: &str, rows: usize, cols: usize, singular: bool, via: &str) -> Strin
                 "method" => m.determinant(),
                 "tensor" => la::determinant_tensor::<f64, _, _>(&t),
                 "tensor_method" => t.determinant(),
+                "tensor_view_method" => TensorView::from(&t).determinant(),
                 _ => la::determinant::<f64>(&m),
             };
             d.map(|_| "some".to_string())
         }
         "inverse" => {
             if tensor {
-                let i = if via == "tensor_method" { t.inverse() } else { la::inverse_tensor::<f64, _, _>(&t) };
+                let i = match via {
+                    "tensor_method" => t.inverse(),
+                    "tensor_view_method" => TensorView::from(&t).inverse(),
+                    _ => la::inverse_tensor::<f64, _, _>(&t),
+                };
                 i.map(|i| format!("some {}", tsz(&i)))
             } else {
                 let i = if via == "method" { m.inverse() } else { la::inverse::<f64>(&m) };
@@ -2020,6 +2231,146 @@ fn gen_conversions(g: &mut Gen) {
     }
 }
 
+fn ring(len: usize) -> Vec<usize> {
+    let mut v = vec![0, len.saturating_sub(1), len, len + 1, MAX - 1, MAX];
+    v.sort();
+    v.dedup();
+    v
+}
+
+/// all orders of the names of a shape
+fn name_orders(names: &[&'static str]) -> Vec<Vec<&'static str>> {
+    if names.len() <= 1 {
+        return vec![names.to_vec()];
+    }
+    let mut out = vec![];
+    for i in 0..names.len() {
+        let mut rest = names.to_vec();
+        let first = rest.remove(i);
+        for mut p in name_orders(&rest) {
+            p.insert(0, first);
+            out.push(p);
+        }
+    }
+    out
+}
+
+/// API surface: the fallible pub fns that have several receiver forms (copy-pasted impl blocks,
+/// convenience methods), each on a non-identity, non-square configuration with valid and
+/// invalid inputs.  The counters `surface.<fn>.<form>.<valid|invalid>` are what
+/// props/c16_surface.json refers to.
+fn gen_surface(g: &mut Gen) {
+    // TensorAccess<_, RecordTensor (owned / & / &mut), D>::try_get_as_record
+    let shapes: Vec<Vec<(&'static str, usize)>> = vec![
+        vec![("c", 3), ("r", 2)],
+        vec![("a", 2), ("b", 3), ("c", 4)],
+        vec![("x", 4)],
+        vec![("row", 1), ("column", 5)],
+    ];
+    for shape in &shapes {
+        let names: Vec<&'static str> = shape.iter().map(|d| d.0).collect();
+        for order in name_orders(&names) {
+            // the shape as accessed
+            let lens: Vec<usize> = order.iter().map(|n| shape.iter().find(|d| d.0 == *n).unwrap().1).collect();
+            let mut candidates: Vec<Vec<usize>> = tuples(&lens.iter().map(|&l| (0..=l).collect::<Vec<_>>()).collect::<Vec<_>>());
+            // indexes that are valid in the source order only, and the extremes
+            candidates.push(shape.iter().map(|d| d.1 - 1).collect());
+            candidates.push(lens.iter().map(|_| MAX).collect());
+            for idx in candidates {
+                if !g.thorough && shape.len() == 3 && !g.rng.chance(1, 3) {
+                    continue;
+                }
+                let via = *g.rng.pick(&["owned", "ref", "mut", "index_by", "owned", "ref", "mut", "tensor_ref", "tensor_mut"]);
+                let inside = idx.iter().zip(lens.iter()).all(|(i, l)| i < l);
+                g.op(format!("@ record_get {} {} {} via={}", show_shape(shape), show_names(&order), show_usizes(&idx), via));
+                g.count(&format!("surface.try_get_as_record.{}.{}", via, if inside { "valid" } else { "invalid" }));
+                if order != names {
+                    g.count("surface.try_get_as_record.non_identity_order");
+                }
+            }
+        }
+    }
+    for (r, c) in [(2usize, 3usize), (3, 1)] {
+        for i in ring(r) {
+            for j in ring(c) {
+                for via in ["record", "matrix_ref", "matrix_mut"] {
+                    g.op(format!("@ record_mget {} {} {} {} via={}", r, c, i, j, via));
+                    g.count(&format!("surface.record_matrix.{}.{}", via, if i < r && j < c { "valid" } else { "invalid" }));
+                }
+            }
+        }
+    }
+    // FromUsize::from_usize
+    for ty in [
+        "u8", "i8", "u16", "i16", "u32", "i32", "u64", "i64", "u128", "i128", "usize", "isize", "wrapping_u8",
+        "saturating_i16", "f32", "f64", "record_f64", "record_i8", "trace_i8",
+    ] {
+        for n in [0usize, 1, 127, 128, 255, 256, 32767, 32768, 65535, 65536, (1 << 31) - 1, 1 << 31, (1 << 32) - 1, 1 << 32, HALF - 1, HALF, MAX] {
+            g.op(format!("@ from_usize {} {}", ty, n));
+            g.count(&format!("surface.from_usize.{}", ty));
+        }
+    }
+    // length_of / last_index_of / position_of
+    for shape in &shapes {
+        let mut names: Vec<String> = shape.iter().map(|d| d.0.to_string()).collect();
+        names.extend(["zz".to_string(), "_empty_".to_string(), "rows".to_string()]);
+        for name in &names {
+            let present = shape.iter().any(|d| d.0 == name.as_str());
+            for (f, vias) in [
+                ("length_of", &["tensor", "view", "dims"][..]),
+                ("last_index_of", &["tensor", "view", "dims"][..]),
+                ("position_of", &["dims"][..]),
+            ] {
+                for via in vias {
+                    g.op(format!("@ dim_lookup {} {} {} via={}", f, show_shape(shape), name, via));
+                    g.count(&format!("surface.{}.{}.{}", f, via, if present { "valid" } else { "invalid" }));
+                }
+            }
+        }
+    }
+    // the forwarding impls (&S, &mut S, Box<S>, Box<dyn …>) of the two traits.rs, over a
+    // non-square source behind a non-identity access
+    const FORWARD: [&str; 7] = ["ref_ref", "mut_ref", "mut_mut", "boxed", "boxed_mut", "box_dyn_ref", "box_dyn_mut"];
+    g.op("@ tensor c:3,r:2".to_string());
+    g.op("access r,c".to_string());
+    for via in FORWARD {
+        for idx in [[0usize, 0], [1, 2], [2, 1], [1, 3], [2, 0], [MAX, 0]] {
+            g.op(format!("get {},{} via={}", idx[0], idx[1], via));
+            g.count(&format!("surface.forward.tensor.{}.{}", via, if idx[0] < 2 && idx[1] < 3 { "valid" } else { "invalid" }));
+        }
+    }
+    g.op("@ matrix 2 3".to_string());
+    g.op("mreverse 1 0".to_string());
+    for via in FORWARD {
+        for (i, j) in [(0usize, 0usize), (1, 2), (2, 1), (1, 3), (2, 0), (MAX, 0)] {
+            g.op(format!("mget {} {} via={}", i, j, via));
+            g.count(&format!("surface.forward.matrix.{}.{}", via, if i < 2 && j < 3 { "valid" } else { "invalid" }));
+        }
+    }
+    // determinant / inverse as methods of TensorView
+    for (r, c, sing) in [(2usize, 2usize, 0), (2, 2, 1), (2, 3, 0), (3, 1, 0)] {
+        for f in ["determinant", "inverse"] {
+            g.op(format!("@ linalg {} {} {} {} via=tensor_view_method", f, r, c, sing));
+            g.count(&format!("surface.tensor_view.{}.{}", f, if r == c && sing == 0 { "valid" } else { "invalid" }));
+        }
+    }
+    // the lenient named methods of Tensor / TensorView
+    let cases: Vec<(Vec<(&'static str, usize)>, Vec<&'static str>)> = vec![
+        (vec![("c", 3), ("r", 2)], vec!["r:0:1", "c:1:2", "r:1:5,c:0:2", "c:2:18446744073709551615", "c:3:1", "r:0:0", "z:0:1", "c:0:1,c:1:1", "c:0:3", "c:0:3,r:0:2", "-"]),
+        (vec![("a", 2), ("b", 3), ("c", 4)], vec!["b:1:1", "c:1:2,a:1:1", "a:0:2,b:0:3,c:0:4", "b:5:1", "c:3:9", "q:0:1,a:0:1"]),
+    ];
+    for (shape, args) in &cases {
+        for arg in args {
+            for kind in ["range", "mask"] {
+                for via in ["tensor", "tensor_mut", "tensor_owned", "view", "view_mut", "view_owned"] {
+                    g.op(format!("@ named {} {} {} via={}", kind, show_shape(shape), arg, via));
+                    g.count(&format!("surface.{}.{}", kind, via));
+                }
+            }
+        }
+    }
+}
+
 pub fn gen(g: &mut Gen) {
     gen_adversarial_names(g);
     gen_large(g);
@@ -2031,4 +2382,5 @@ pub fn gen(g: &mut Gen) {
     gen_linalg(g);
     gen_records(g);
     gen_conversions(g);
+    gen_surface(g);
 }
